@@ -1,4 +1,5 @@
 import LopdfModel.Lemmas.CMapBuild
+import LopdfModel.Lemmas.CMapGrammar
 /-
   C15 — property theorems: ToUnicode CMaps decode text as the CMap defines.
 
@@ -678,6 +679,33 @@ theorem cmap_decode_partial (ss : List Section)
   · intro k hk1 hk2
     rw [hget _ _ (codeVal_lt_u32 _ (fun b hb => h3 b (List.mem_of_mem_take hb)) (by simp; omega)), h4 k hk1 hk2]
   · rw [hget _ _ (codeVal_lt_u32 _ h3 h2), h5]
+
+/-! ### from the text of the stream -/
+
+/-- **cmap_parse_render** — the grammar model (`cmap_stream` and everything below it) reads back the
+canonical writer: for every non-empty list of sections of any kinds and sizes with 1–4-byte codes and
+1–256-unit targets, parsing the written stream yields exactly these sections. -/
+theorem cmap_parse_render (ss : List Section) (hne : ss ≠ []) (hok : ∀ s ∈ ss, SectionOk s) :
+    parseCMap (CMapRender.renderCMap ss) = some ss := parse_render ss hne hok
+
+/-- **cmap_text_get_partial** — from the bytes of the /ToUnicode stream to the looked-up target:
+`ToUnicodeCMap::parse` of the written CMap followed by `get` returns what the CMap defines, for every
+code of every length (under the guard of `cmap_get_partial`). -/
+theorem cmap_text_get_partial (ss : List Section) (hne : ss ≠ []) (hok : ∀ s ∈ ss, SectionOk s)
+    (hwf : ∀ d ∈ defsOf ss, d.wf) (hsep : separated (defsOf ss) = true) (c l : Nat) (hc : c < U32) :
+    ∃ m, (parseCMap (CMapRender.renderCMap ss)).bind fromSections = some m ∧
+      get m c l = .ok (defines (defsOf ss) c l) := by
+  obtain ⟨m, hm, hg⟩ := cmap_get_partial ss hwf hsep c l hc
+  exact ⟨m, by rw [parse_render ss hne hok]; exact hm, hg⟩
+
+/-- non-vacuity: a CMap with all three kinds of sections, an array and a surrogate pair is writable -/
+example : ∀ s ∈ ([.csRange [(0, 0xFFFF, 2)], .bfChar [((0x01, 1), [0x66, 0x69]), ((0x0003, 2), [0x41])],
+                  .bfRange [((0x10, 0x13, 1), [[0x41, 0x30]]), ((0x20, 0x21, 1), [[0xD83D, 0xDE00], [0x263a]])]] : List Section),
+    SectionOk s := by
+  intro s hs
+  simp only [List.mem_cons, List.mem_nil_iff, or_false] at hs
+  rcases hs with h | h | h <;> subst h <;>
+    simp [SectionOk, CsLineOk, CharLineOk, RangeLineOk, CodeOk, TargetOk]
 
 /-- the constants regenerated from the source are the documented ones: unmapped codes become
 U+FFFD, codes have 1 to 4 bytes, a target string has 1 to 256 UTF-16 units -/
